@@ -124,6 +124,15 @@ def smear (K : Type) [Add K] [Mul K] [Zero K] [CxLike K R] [AbsLike K R] (img : 
   let out := Gen.bwSmearApply (stAbs (R := R) K) (stIfft2 (R := R) K) (stFft2 (R := R) K) (stMul (R := R) K) img (smearKernel img.s0 img.s1 distance angleDeg pixelscale os)
   if Gen.bwSmearRenorm then renormGuarded Gen.bwSmearRenormGuard Gen.bwSmearRenormExpr img out else out
 
+/-- the calls that leave `pixelscale` / `oversample` out — "the extent expressed in samples": the omitted arguments take the defaults
+regenerated from the signatures (`Gen.bw…Default…`) -/
+def pixelDefault (K : Type) [Add K] [Mul K] [Zero K] [CxLike K R] [AbsLike K R] (img : Arr R) : Arr R :=
+  pixel K img (RealLike.ofInt Gen.bwPixelDefaultOversample)
+def jitterDefault (K : Type) [Add K] [Mul K] [Zero K] [CxLike K R] [AbsLike K R] (img : Arr R) (scale : R) : Arr R :=
+  jitter K img scale (RealLike.ofInt Gen.bwJitterDefaultPixelscale) (RealLike.ofInt Gen.bwJitterDefaultOversample)
+def smearDefault (K : Type) [Add K] [Mul K] [Zero K] [CxLike K R] [AbsLike K R] (img : Arr R) (distance angleDeg : R) : Arr R :=
+  smear K img distance angleDeg (RealLike.ofInt Gen.bwSmearDefaultPixelscale) (RealLike.ofInt Gen.bwSmearDefaultOversample)
+
 /-- `smear(img, distance, angle=None, …)`: the direction is one `uniform(0, 2π)` draw `u ∈ [0, 1)` of NumPy's global generator; kernel
 as regenerated from the `angle is None` branch -/
 def smearKernelNone (s0 s1 : Int) (distance pixelscale os u : R) : Arr R :=
